@@ -147,6 +147,17 @@ idl_a_demux_feed		(vbi_idl_demux *	dx,
 		}
 	}
 
+	if (dx->ci >= 0
+	    && 0 != (ri & 0xF)
+	    && 0 == ((ci + 1 - dx->ci) & 0xFF)) {
+		/* Repeat of the packet delivered last, for example
+		   when a corrupted repeat made us wait for the next. */
+
+		dx->ri = -1;
+
+		return TRUE;
+	}
+
 	if (dx->ri >= 0) {
 		if (0 != ((ri ^ dx->ri) & 0xF)) {
 			/* Repeat packet(s) lost. */
@@ -178,6 +189,9 @@ idl_a_demux_feed		(vbi_idl_demux *	dx,
 	dupecount = 0;
 
 	dx->ci = ci + 1;
+
+	/* Packet received, no repeat expected. */
+	dx->ri = -1;
 
 	if (ft & FT_HAVE_DL) {
 		dl = buffer[4 + i++] & 0x3F;
